@@ -263,4 +263,12 @@ func VX_C17_concat() {
 	}
 	vxAssert(r.Length() == distinct, "concat/length-is-number-of-distinct-keys")
 	vxAssert(vxInvariant(r), "concat/invariant")
+	// x + y is a NEW map: changing it later does not change an operand
+	vxAssert(r != x.h && r != y.h, "concat/result-is-a-new-map")
+	for i := range r.Table {
+		r.Table[i] = vxTombstone() // overwrite the result's storage
+	}
+	_, xp2 := vxLookup(x.h, probe)
+	_, yp2 := vxLookup(y.h, probe)
+	vxAssert(xp2 == xp && yp2 == yp, "concat/operands-independent-of-later-changes-to-the-result")
 }
